@@ -2,3 +2,5 @@
 pub mod mnemonic;
 pub mod resolver;
 pub mod lex488;
+pub mod bigint;
+pub mod decnum;
